@@ -262,3 +262,14 @@ Theorem c16_stream_terminated :
     pt (client_feed segs) = PTrailer.
 Proof. exact stream_terminated. Qed.
 Print Assumptions c16_stream_terminated.
+
+(* ---- maintenance (kill_zombies): the stream stays open while it is in use ---- *)
+Theorem c16_active_channel_survives :
+  forall now tmo last_used, now - last_used <= tmo -> survives now tmo last_used = true.
+Proof. exact active_channel_survives. Qed.
+Print Assumptions c16_active_channel_survives.
+
+Theorem c16_idle_channel_closed :
+  forall now tmo last_used, now - last_used > tmo -> survives now tmo last_used = false.
+Proof. exact idle_channel_closed. Qed.
+Print Assumptions c16_idle_channel_closed.
